@@ -176,6 +176,7 @@ def make_documents(ctx, n_docs):
     rng = random.Random(ctx.seed * 1000003 + 14)
     docs = []
     # fixed: byte coverage and a few hand-written shapes
+    huge = [D.Num("int", ival=v) for v in D.HUGE_INTS]
     fixed = [D.byte_coverage_strings(),
              D.Obj([(s, i) for i, s in enumerate([])]),
              D.Obj([(w, D.Num("int", ival=i)) for i, w in enumerate(D.LUA_KEYWORDS)]),
@@ -185,7 +186,7 @@ def make_documents(ctx, n_docs):
              D.Obj([("a", None), ("b", [None]), ("c", D.Obj([("d", None)]))]),
              [D.Num("int", ival=v) for v in D.INT_VALUES],
              [D.Num("float", text=t) for t in D.FLOAT_TEXTS],
-             [D.Num("int", ival=v) for v in D.HUGE_INTS],
+             huge,
              [D.Num("inf"), D.Num("ninf"), D.Num("nan")],
              D.Obj([("k" * 30 + " " + "k" * 40, D.Num("int", ival=1)), ("line\n" * 8 + "tail", D.Num("int", ival=2)),
                     ("x ]] y" * 12 + "]=", D.Num("int", ival=3))]),
@@ -194,7 +195,7 @@ def make_documents(ctx, n_docs):
     generic = fixed + [D.gen_document(rng) for _ in range(n_docs)]
     for doc in generic:
         for fmt in FORMATS:
-            p = D.project(doc, fmt)
+            p = D.project(doc, fmt, keep_huge=(doc is huge))
             text = D.serialize(rng, p, fmt)
             docs.append((fmt, text, D.expected_rvalue(p), D.node_count(p), D.features(p), repr(p)[:400]))
     # JSON / JSON5 duplicate keys: the last one holds
